@@ -91,6 +91,8 @@ def run(
         subprocess.run(["pkill", "-f", str(metadir)], capture_output=True)
         raise TLCFailure(f"TLC timed out after {timeout}s on {module.name}/{cfg.name}") from ex
     out = p.stdout + ("\n" + p.stderr if p.stderr else "")
+    out = "\n".join(ln for ln in out.splitlines()
+                    if not ln.startswith(("Parsing file ", "Semantic processing of module ", "Linting of module ")))
     res = TLCResult(
         module=module.name, cfg=cfg.name, rc=p.returncode, out=out, wall_s=round(time.time() - t0, 2)
     )
